@@ -66,6 +66,9 @@ type BundlePart struct {
 
 	FragmentOffset  uint64
 	TotalDataLength uint64
+
+	// PayloadLength distinguishes fragments starting at the same offset, e.g., from different fragmentations.
+	PayloadLength uint64
 }
 
 // storeBundle serializes the Bundle of a BundleItem/BundlePart to the disk.
@@ -126,6 +129,11 @@ func newBundleItem(b bpv7.Bundle, storagePath string) (bi BundleItem) {
 
 		FragmentOffset:  bid.FragmentOffset,
 		TotalDataLength: bid.TotalDataLength,
+	}
+
+	if payload, err := b.PayloadBlock(); err == nil && bi.Fragmented {
+		bp.PayloadLength = uint64(len(payload.Value.(*bpv7.PayloadBlock).Data()))
+		bp.Filename = fmt.Sprintf("%s-%d", bp.Filename, bp.PayloadLength)
 	}
 
 	bi.Parts = append(bi.Parts, bp)
